@@ -59,7 +59,7 @@ def worker(args):
 
 def run(ctx):
     server_bin("rel")
-    nprog, nh = (150, 200) if ctx.quick else (4000, 6000)
+    nprog, nh = (450, 500) if ctx.quick else (4000, 6000)
     for p in pmap(worker, [("%s/%d" % (ctx.seed, i), nprog, nh) for i in range(NCPU)]): ctx.merge(p)
     ctx.rule = ("valid generated programs in all layouts (doc comments, several procedures on one line, CRLF): ranges = one per procedure in source order from the line of `proc` to the line of "
                 "its last token; hostile documents: start <= end, inside the document, ordered and not overlapping; distinct_nontrivial = distinct (has doc comments, line span) of procedures")
